@@ -1,5 +1,5 @@
 """C18 deductive part: SpooledBytesIO.write/read/seek/tell/rollover against a file-object contract shared by BytesIO and the
-temporary file (contracts/spooled.py), and MultiFileReader.seek(0)."""
+temporary file (contracts/spooled.py), MultiFileReader.seek(0) and the sized MultiFileReader.read(amt)."""
 from pyvc import driver
 from contracts import spooled as m
 
@@ -11,4 +11,8 @@ def run(ded, repo, tier):
               'both io.BytesIO and tempfile.TemporaryFile; os.SEEK_SET/CUR/END = 0/1/2')
     ded.assume('writes happen at a position <= len(content) (the statement speaks of appending writes)')
     ded.trust('not under contract (bounded only): SpooledStringIO (code-point positions over a UTF-8 buffer), readline/readlines/'
-              'iteration/len/getvalue/truncate, MultiFileReader.read')
+              'iteration/len/getvalue/truncate, the unsized MultiFileReader.read() (a generator expression with side effects)')
+    ded.trust('axiom: tl(n) = empty, tl(i) = content_i[pos_i:] ++ tl(i+1) - the recursive definition of "what is left to read from member i on" '
+              'is given to the solver as a quantified defining axiom of an uninterpreted function')
+    ded.assume('MultiFileReader members are distinct file objects whose positions lie inside their contents; the list `parts` is tracked '
+               'through its ghost concatenation (append, join)')
